@@ -9,6 +9,7 @@ files, POST, params, json, body) inside a handler behind Ombott.__call__.  Monit
     be the complete data of one of them.
 """
 import json
+import os
 import re
 from vmon.wsgi import make_environ, call_app, RecStream, chunk_encode
 from vmon.probes import StepCounter, BudgetExceeded
@@ -16,13 +17,14 @@ from vmon.probes import StepCounter, BudgetExceeded
 RULE = ('bodies: random bytes; grammar-mutated multipart (truncation at every offset, missing/duplicated/garbled delimiters, delimiter followed by '
         'junk, preamble, headers without colon / without name / empty value / non-UTF-8 / bare CR or LF / oversized / lower-case, byte-level '
         'insert-delete-substitute), content types (wrong case, no boundary, empty/quoted/mismatching boundary, multipart/mixed); JSON (invalid, '
-        'non-object, empty, non-UTF-8, nested to depth 100000, NaN, huge numbers); urlencoded junk; x framing (Content-Length exact/short/long, '
+        'non-object, empty, non-UTF-8, nested to depth 100000, NaN, huge numbers); urlencoded junk; x framing (Content-Length exact/short/long/not a number, '
         'chunked valid and malformed) x max_memfile_size x accessor {forms, files, POST, params, json, body}. Non-trivial = the body is not a '
         'well-formed instance of its content type; distinct = distinct (content type, body, framing, accessor, buffer).')
-REQUIRED = ['requests', 'status_2xx', 'status_4xx', 'multipart_mutations', 'truncations', 'json_bodies', 'urlencoded_bodies', 'random_bytes_bodies',
+REQUIRED = ['malformed_content_length_header', 'cpu_budget_requests', 'requests', 'status_2xx', 'status_4xx', 'multipart_mutations', 'truncations', 'json_bodies', 'urlencoded_bodies', 'random_bytes_bodies',
             'chunked_malformed_framing', 'delivered_fields_checked', 'step_budget_armed', 'accessor_forms', 'accessor_files', 'accessor_json',
             'accessor_body', 'accessor_POST', 'header_mutations', 'content_type_mutations']
-ASSUMPTIONS = ['step budget = 60000 + 600 line events per body byte (measured need: <= 60 per byte in the worst configuration)',
+ASSUMPTIONS = ['a statement that never returns from C code (regular-expression engine) is invisible to LINE events: pathological header shapes are served in a child under RLIMIT_CPU = 40 CPU seconds (measured need < 2); CPU time, not wall-clock',
+               'step budget = 60000 + 600 line events per body byte (measured need: <= 60 per byte in the worst configuration)',
                'a delivered value is compared with the parts an independent splitter finds between consecutive delimiters of the sent body',
                'chunked framing is used with buffers that can hold a size line']
 
@@ -264,6 +266,12 @@ def do_request(ctx, sc, apps, rng, body, ctype, framing, acc, B_mem, mclass, bou
         env = make_environ('POST', '/' + acc, stream=RecStream(body, policy), content_length=n, content_type=ctype)
     elif framing == 'chunked':
         env = make_environ('POST', '/' + acc, stream=RecStream(chunk_encode(body, rng), policy), content_length=None, chunked=True, content_type=ctype)
+    elif framing == 'cl_garbage':
+        # malformed framing header: Content-Length that is not a (plain) number
+        sent = None
+        env = make_environ('POST', '/' + acc, stream=RecStream(body, policy), content_length=None, content_type=ctype,
+                           extra={'CONTENT_LENGTH': rng.choice(['abc', '12abc', '1e3', '0x10', '5,5', '5.0', ' 7', '-1', '+3', '--', '1 2', '\u0661\u0662', '9' * 40, 'NaN', 'inf', '0b1', '١٢'])})
+        ctx.count('malformed_content_length_header')
     elif framing == 'no_length':
         sent = b''
         env = make_environ('POST', '/' + acc, stream=RecStream(body, policy), content_length=None, content_type=ctype)
@@ -338,7 +346,7 @@ def wit(body, ctype, framing, acc, B_mem):
 
 
 ACCS = ['forms', 'files', 'POST', 'params', 'json', 'body', 'all']
-FRAMINGS = ['cl', 'cl', 'cl', 'chunked', 'cl_short', 'cl_less', 'bad_chunked', 'no_length']
+FRAMINGS = ['cl', 'cl', 'cl', 'chunked', 'cl_short', 'cl_less', 'bad_chunked', 'no_length', 'cl_garbage']
 
 
 def multipart_unit(ctx, unit):
@@ -436,12 +444,98 @@ def other_unit(ctx, unit):
         sc.uninstall()
 
 
+def pathological_inputs():
+    """(label, content type, body) with shapes that make a careless scanner or regular expression explode:
+    long unterminated quotes, runs of separators, nested look-alikes.  Deterministic list."""
+    out = []
+    d = '--' + B
+
+    def part(header_line):
+        return (d + '\r\n' + header_line + '\r\n\r\nvalue\r\n' + d + '--\r\n').encode('utf8', 'replace')
+    ct = CTYPES_MP[0][0]
+    for k in (8, 16, 24, 32, 48, 64, 200, 2000):
+        out.append((f'unterminated-quote-{k}', ct, part('Content-Disposition: form-data; name="' + 'a' * k)))
+        out.append((f'unterminated-quote-semis-{k}', ct, part('Content-Disposition: form-data; name="' + 'a;' * k)))
+        out.append((f'quote-run-{k}', ct, part('Content-Disposition: form-data; name=' + '"' * k)))
+        out.append((f'escaped-quotes-{k}', ct, part('Content-Disposition: form-data; name="' + '\\"' * k)))
+        out.append((f'param-run-{k}', ct, part('Content-Disposition: form-data; ' + 'x=y;' * k + ' name="n"')))
+        out.append((f'equals-run-{k}', ct, part('Content-Disposition: form-data; name' + '=' * k)))
+        out.append((f'semicolon-run-{k}', ct, part('Content-Disposition: form-data' + ';' * k)))
+        out.append((f'quoted-pairs-{k}', ct, part('Content-Disposition: form-data; ' + 'a="b' * k)))
+        out.append((f'blank-run-{k}', ct, part('Content-Disposition:' + ' ' * k + 'form-data;' + ' ' * k + 'name="n"')))
+        out.append((f'colon-run-{k}', ct, part('Content-Disposition' + ':' * k + ' form-data; name="n"')))
+        out.append((f'ctype-semicolons-{k}', 'multipart/form-data; boundary=' + ';' * k, part('Content-Disposition: form-data; name="n"')))
+        out.append((f'ctype-boundary-run-{k}', 'multipart/' + 'boundary=' * k, part('Content-Disposition: form-data; name="n"')))
+        out.append((f'ctype-long-subtype-{k}', 'multipart/' + 'x' * k + '; boundary=' + B, part('Content-Disposition: form-data; name="n"')))
+        out.append((f'ctype-no-boundary-long-{k}', 'multipart/form-data; ' + 'a=b; ' * k, part('Content-Disposition: form-data; name="n"')))
+        out.append((f'urlencoded-percent-run-{k}', 'application/x-www-form-urlencoded', b'%' * k + b'=' + b'%2' * k))
+        out.append((f'urlencoded-separators-{k}', 'application/x-www-form-urlencoded', b'&=' * k))
+        out.append((f'json-brackets-{k}', 'application/json', b'[' * k + b']' * (k // 2)))
+        out.append((f'json-string-escapes-{k}', 'application/json', b'"' + b'\\' * k))
+    return out
+
+
+CPU_CHILD = r'''
+import sys, os
+sys.path.insert(0, os.environ['VERIF_REPO']); sys.path.insert(0, os.environ['VERIF_HERE'])
+from vmon.props import c12
+from vmon.wsgi import make_environ, call_app, RecStream
+import ombott
+seen = {}
+app = c12.build_app(seen, 102400, None)
+bad = []
+for i, (label, ct, body) in enumerate(c12.pathological_inputs()):
+    for acc in ('forms', 'files', 'POST', 'json', 'params'):
+        print('RUN', i, label, acc, flush=True)
+        r = call_app(app, make_environ('POST', '/' + acc, stream=RecStream(body), content_length=len(body), content_type=ct))
+        if r.escaped is not None or r.code is None or r.code >= 500:
+            print('FAULT', i, label, acc, r.status, flush=True)
+print('DONE', flush=True)
+'''
+
+
+def cpu_unit(ctx, unit):
+    """What LINE events cannot see: one statement that runs away inside the regular-expression engine (or another C
+    function).  The pathological inputs are served in a child process under a CPU-time limit set with RLIMIT_CPU
+    (CPU seconds of that process, not wall-clock: machine load does not consume it).  Measured need of the whole
+    list: < 2 CPU seconds; limit 40."""
+    import resource
+    import subprocess
+    import sys as _sys
+    HERE = os.path.dirname(os.path.dirname(os.path.dirname(os.path.abspath(__file__))))
+    limit = unit.get('cpu_s', 40)
+
+    def lim():
+        resource.setrlimit(resource.RLIMIT_CPU, (limit, limit + 5))
+    env = dict(os.environ, VERIF_HERE=HERE, VERIF_REPO=os.environ.get('VERIF_REPO', '/repo'), PYTHONHASHSEED='0')
+    p = subprocess.run([_sys.executable, '-c', CPU_CHILD], env=env, capture_output=True, text=True, preexec_fn=lim)
+    lines = p.stdout.splitlines()
+    runs = [ln for ln in lines if ln.startswith('RUN')]
+    ctx.count('cpu_budget_requests', len(runs))
+    ctx.count('requests', len(runs))
+    for ln in runs:
+        ctx.case(('cpu', ln), nontrivial=True)
+    usage = resource.getrusage(resource.RUSAGE_CHILDREN)
+    ctx.note_max('cpu_seconds_of_pathological_list_x10', int(10 * (usage.ru_utime + usage.ru_stime)))
+    for ln in lines:
+        if ln.startswith('FAULT'):
+            ctx.violation('server-fault-on-pathological-header-shape', ln, {'unit': {'kind': 'note', 'line': ln}})
+    if p.returncode != 0 or not lines or lines[-1] != 'DONE':
+        last = runs[-1] if runs else '(none started)'
+        if p.returncode in (-24, -9):      # SIGXCPU / SIGKILL at the hard limit
+            ctx.violation('cpu-budget-exceeded:no-progress-inside-one-statement', f'the child serving the pathological inputs used more than {limit} CPU seconds; '
+                          f'it was serving: {last}', {'unit': {'kind': 'note', 'last': last}})
+        else:
+            ctx.set_inconclusive(f'pathological-input child ended with {p.returncode}: {p.stderr[-400:]}')
+    ctx.sample({'pathological_shapes': [lb for lb, _, _ in pathological_inputs()][:18], 'cpu_limit_s': limit})
+
+
 def plan(tier, seed):
     if tier == 'quick':
         return ([{'kind': 'multipart', 'n': 1200, 'sub': i} for i in range(4)] + [{'kind': 'truncation', 'bodies': 2, 'sub': i} for i in range(2)]
-                + [{'kind': 'other', 'n': 1000, 'sub': i} for i in range(2)])
+                + [{'kind': 'other', 'n': 1000, 'sub': i} for i in range(2)] + [{'kind': 'cpu'}])
     return ([{'kind': 'multipart', 'n': 12000, 'sub': i} for i in range(20)] + [{'kind': 'truncation', 'bodies': 10, 'sub': i} for i in range(8)]
-            + [{'kind': 'other', 'n': 8000, 'sub': i} for i in range(8)])
+            + [{'kind': 'other', 'n': 8000, 'sub': i} for i in range(8)] + [{'kind': 'cpu'}])
 
 
 def run_unit(ctx, unit):
@@ -452,6 +546,10 @@ def run_unit(ctx, unit):
         truncation_unit(ctx, unit)
     elif k == 'other':
         other_unit(ctx, unit)
+    elif k == 'cpu':
+        cpu_unit(ctx, unit)
+    elif k == 'note':
+        print('  witness:', unit)
     else:
         sc = StepCounter().install()
         try:
